@@ -53,11 +53,11 @@ type Match struct {
 }
 
 func (m Match) validate(allowEmpty bool) error {
-	if _, err := regexp.Compile(m.Path); err != nil {
+	if err := validateMatchRegex(m.Path); err != nil {
 		return err
 	}
 
-	if _, err := regexp.Compile(m.Name); err != nil {
+	if err := validateMatchRegex(m.Name); err != nil {
 		return err
 	}
 
@@ -190,16 +190,26 @@ func matchRegex(s string) *regexp.Regexp {
 	return regexp.MustCompile("^(?:" + s + ")$")
 }
 
+// validateMatchRegex checks that a pattern is a valid regexp both on its own and in the anchored
+// form matchRegex compiles, a pattern like "\\Qabc" is only valid on its own.
+func validateMatchRegex(s string) error {
+	if _, err := regexp.Compile(s); err != nil {
+		return err
+	}
+	_, err := regexp.Compile("^(?:" + s + ")$")
+	return err
+}
+
 type MatchLabel struct {
 	Key   string `hcl:",label" json:"key"`
 	Value string `hcl:"value" json:"value"`
 }
 
 func (ml MatchLabel) validate() error {
-	if _, err := regexp.Compile(ml.Key); err != nil {
+	if err := validateMatchRegex(ml.Key); err != nil {
 		return err
 	}
-	if _, err := regexp.Compile(ml.Value); err != nil {
+	if err := validateMatchRegex(ml.Value); err != nil {
 		return err
 	}
 	return nil
@@ -224,10 +234,10 @@ type MatchAnnotation struct {
 }
 
 func (ma MatchAnnotation) validate() error {
-	if _, err := regexp.Compile(ma.Key); err != nil {
+	if err := validateMatchRegex(ma.Key); err != nil {
 		return err
 	}
-	if _, err := regexp.Compile(ma.Value); err != nil {
+	if err := validateMatchRegex(ma.Value); err != nil {
 		return err
 	}
 	return nil
